@@ -12,3 +12,5 @@ import vmc.core, vmc.cli
 print("setup ok: python", sys.version.split()[0], "numpy", numpy.__version__, "shangrla from", os.path.dirname(A.__file__))
 PYE
 command -v tlc >/dev/null && echo "tlc present" || echo "tlc missing (C10 thorough conformance pass will be skipped and reported)"
+# the reference models (the oracles of the checks) against hand-computed values
+PYTHONPATH=/repo:$PWD PYTHONDONTWRITEBYTECODE=1 "$PY" -W ignore selftest/run.py
